@@ -149,6 +149,8 @@ pub fn body(case: &Case, ctx: &mut CaseCtx) -> PropResult {
 
 pub fn case_strategy(max_nodes: usize) -> BoxedStrategy<Case> {
     let mut p = binary_profile(max_nodes);
+    // the reference encoder builds columns of the declared wire type
+    p.narrow_numbers = false;
     p.free_roots = false;
     (forest::forest(p), plan_strategy())
         .prop_map(|(forest, plan)| Case { forest, plan })
